@@ -24,6 +24,18 @@ integral that does not enclose it (row-wise integral, no shared draw), must be r
 Outputs are compared with the Lean model (`Panel.panelOk/panelMap/tableValues/panelValuesMC/
 DbState.history/scaledBy`, `checkPanelTrajectory/checkDraws/auditErrors/initAccepts`) and with an oracle
 written from the property statement (independent products / means in Python).
+
+Round 3: `count_number_of_groups` as written (`!= shift(1)`, cumsum, unique: `Panel.countGroupsCode`, ids around 0 /
+0 the smallest id not in the first block / negative first rows); Monte-Carlo on the table AS GIVEN (`tableValuesMC`: sort, map
+and draw row of each individual all by the model); latent-class formulas `log(w*PLT(f1) + (1-w)*PLT(f2))` with and without
+shared draws through calculate_likelihood / ..._and_derivatives (gradient, BHHH by individuals, scaled) / get_value_c
+(per individual, aggregated), reordered tables (`tableValuesMulti`); the per-row values of the integrands come from the
+PROVED engine model run on the real signature text (lib/leanrun), the panel model runs on those; gradient / BHHH / hessian of
+the trajectory family in closed form by individuals (`gradPanel/bhhhPanel/scaledOutput`); bootstrap on panel data
+(`sample_individual_map_with_replacement` with and without size; the estimates of `estimate(run_bootstrap=True)` are the
+maximisers over the rows of the picked individuals - picks reproduced from the numpy seed - `Panel.resample`, `Sess.run`);
+one BIOGEME object kept while database.data is changed (likelihood / derivatives / simulate on the SAME object: values of
+the current table or a library error - `Panel.Obj.history`, finding F-C09-5).
 """
 
 from __future__ import annotations
@@ -32,7 +44,7 @@ import math
 
 import numpy as np
 
-from lib import core
+from lib import core, leanrun
 from props import iso_f
 from lib.core import Result, f2b, b2f
 
@@ -48,7 +60,14 @@ MANIFEST = dict(
     '(shared_draw, draws_of_individual_only, mc_perm); '
     'check_panel_trajectory = variables outside every trajectory operator (audit_panel); Expression.audit lists no error on panel data iff every MonteCarlo encloses a trajectory operator, '
     'a draw and no other integral (audit_mc), hence an accepted formula has all variables below, and all integrals around, a trajectory operator (accepted_formula). '
-    'Tie: real Database/BIOGEME/Expression objects on generated panel tables, histories of table changes and evaluations, deterministic draw generators.',
+    'Round 3: count_number_of_groups as written (!= shift(1), cumsum, unique) = number of runs for every id column - the first row always starts a group (count_groups_code, contiguous_iff_code; '
+    'a fill value instead of NaN is not equivalent: fill_value_counter_differs); the lines of the map follow the ascending ids (map_ascending); at table level the individual at position k of that map reads '
+    'row k of the draw table for all its rows and the simulated values are the same for every order of the table (table_values_mc, table_mc_perm_invariant); every trajectory operator of a formula with several '
+    'of them (latent classes, no additivity) is the product over exactly the rows of the individual, invariant under reordering (table_values_multi, table_multi_perm_invariant, latent_class_value); a bootstrap '
+    'sample consists of whole lines of the map, one term per pick (bootstrap_whole_individuals, bootstrap_loglik) and over every history of likelihood / simulate / estimate(bootstrap) calls on one object each reported '
+    'evaluation runs on the full map (session_full_map); all four scaled outputs are divided by the number of individuals (scaled_output_by_individuals), BHHH / gradient are sums over individuals of scores summed over their rows first '
+    '(bhhh_by_individuals); on an existing object whose table was changed every evaluation is refused or returns the values of the current table (object_history_current; repaired behaviour, F-C09-5). '
+    'Tie: real Database/BIOGEME/Expression objects on generated panel tables, histories of table changes and evaluations, deterministic draw generators; integrands evaluated by the proved engine model on the real signature text (leanrun).',
     design='DESIGN.md §5 C09',
     technique='Lean 4 theorems (core + Mathlib list/finset lemmas) over an executable model of the contiguity test, the individual map, its rebuilding before each evaluation, the trajectory / Monte-Carlo operators and the placement rules + differential correspondence',
     note='The C++ engine operators are modelled, not verified. pandas sort_values/unique/shift are trusted primitives (their outputs are checked on every case).',
@@ -57,7 +76,10 @@ MANIFEST = dict(
 TRUSTED = [
     'cythonbiogeme operators PanelLikelihoodTrajectory / MonteCarlo / bioDraws: modelled from their source, validated on the explored cases, not verified',
     'pandas sort_values / unique / shift / cumsum used by Database.panel and build_panel_map (their outputs are checked against the model and the oracle on every case)',
-    'per-row values of the integrand are taken from the real code evaluated on a non-panel copy of the table (their correctness is C01)',
+    'per-row values of the integrand: for the trajectory / latent-class formulas without draws they are computed by the proved engine model (C01) from the real signature text and compared with the real engine; '
+    'with draws they are recomputed in the oracle and the driver from the closed form of the integrand family',
+    'numpy.random.randint under a fixed numpy seed is reproducible (used to know which individuals the bootstrap loop picked)',
+    'the optimiser of BIOGEME.estimate finds the maximiser of a concave quadratic log likelihood to 1e-5 (used to read a bootstrap sample off its estimate)',
 ]
 ASSUMPTIONS = ['per-observation values inside the trajectory are positive (the engine computes exp of the sum of logs)', 'ids are mapped to integers preserving order and equality']
 RULE = (
@@ -66,12 +88,16 @@ RULE = (
     'initial likelihood, simulate; sequences simulate / likelihood / estimate(bootstrap) / simulate on one object; histories of 1-3 table changes '
     '(append for the last / any / a new individual, drop rows / an individual, relabel a row, reorder, Database.remove, replace) each followed by an evaluation through '
     'get_value_c / get_value_c(aggregation) / get_value_and_derivatives / a new BIOGEME object; placement: random formulas of depth <= 5 with trajectory and Monte-Carlo operators, '
-    'single formula / dict / Expression.audit / get_value_c; non-trivial = >= 2 individuals with unequal block sizes'
+    'single formula / dict / Expression.audit / get_value_c; non-trivial = >= 2 individuals with unequal block sizes; '
+    'round 3: id pools around zero (-2..4, 0..5) and corpus tables with id 0 smallest / not first / interleaved; latent-class formulas (w in {1/8,1/4,1/2,3/4}, with / without draws, R in {1,2,3}) x reordered table; '
+    'bootstrap: 2-4 samples, numpy seed, resample size in {default, 1, 7}; same-object sequences of 1-3 edits (none, reorder, append for the last / a new individual, drop a row / an individual, relabel) each followed by '
+    'likelihood / derivatives / simulate on the existing object (isolated process)'
 )
 
 WHERE_DICT = 'BIOGEME.__init__ with a dict of formulas on panel data: variables outside PanelLikelihoodTrajectory'
 WHERE_BOOT_L = 'calculate_likelihood right after estimate(run_bootstrap=True) on the same object (engine keeps the last bootstrap sample)'
 WHERE_SEQ = 'sequence of simulate / calculate_likelihood / estimate on one panel BIOGEME object'
+WHERE_BOOT_SAMPLE = 'bootstrap on panel data: Database.sample_individual_map_with_replacement / the bootstrap loop of BIOGEME.estimate'
 WHERE_DERIV = 'BIOGEME.calculate_likelihood_and_derivatives on panel data'
 MATCHERS = {
     'dict_path': lambda case: isinstance(case, dict) and case.get('dict_path') is True,
@@ -79,6 +105,7 @@ MATCHERS = {
 }
 
 TOML = core.TOML_MINIMAL
+EXTRA_MODULES = list(leanrun.MODULES)
 
 ID_POOLS = [
     lambda rng: rng.randint(-50, 50),
@@ -86,6 +113,8 @@ ID_POOLS = [
     lambda rng: rng.choice([1, 2, 3, 4, 5, 6, 7, 8, 9, 10, 11, 12]),
     lambda rng: rng.randint(-40, 40) / 2.0,
     lambda rng: rng.choice([0, -1, 1, 10**6, -(10**6), 999999, 1000001, 17, 170, 1700]),
+    lambda rng: rng.randint(-2, 4),   # around zero: 0 the smallest id / not in the first block / next to negative ids
+    lambda rng: rng.randint(0, 5),
 ]
 
 # ----------------------------------------------------------------------------- generators
@@ -94,6 +123,8 @@ ID_POOLS = [
 def gen_table(rng, contiguous=None):
     n_ind = rng.choice([1, 1, 2, 2, 3, 3, 4, 5, 6, 8])
     pool = rng.choice(ID_POOLS)
+    if pool in ID_POOLS[-2:]:
+        n_ind = min(n_ind, 5)
     ids = []
     while len(ids) < n_ind:
         v = pool(rng)
@@ -231,7 +262,9 @@ def run_panel(table):
     from biogeme.tools.database import count_number_of_groups
 
     df = make_df(table)
-    out = {'groups': int(count_number_of_groups(df.copy(), 'ID'))}
+    df0 = df.copy()
+    out = {'groups': int(count_number_of_groups(df0, 'ID')), 'groups_sorted': int(count_number_of_groups(df0.sort_values(by=['ID']), 'ID')),
+           'frame_untouched': list(df0.columns) == list(df.columns) and df0.equals(df)}
     d = db.Database('t', df)
     try:
         d.panel('ID')
@@ -281,6 +314,10 @@ def run_values(case, table):
             }
         out['Dplain'] = float(B.calculate_likelihood_and_derivatives(x, scaled=True).function)
         out['L0'] = float(B.calculate_init_likelihood())
+        # thin public wrappers around the same function: check_derivatives, likelihood_finite_difference_hessian
+        cd = B.check_derivatives(x, verbose=False)
+        out['CD'] = {'f': float(cd[0]), 'g': [float(v) for v in np.asarray(cd[1]).ravel()], 'h': [float(v) for v in np.asarray(cd[2]).ravel()]}
+        out['FDH'] = [float(v) for v in np.asarray(B.likelihood_finite_difference_hessian(x)).ravel()]
         out['L_again'] = float(B.calculate_likelihood(x, scaled=False))
         sim = B.simulate({'b': case['b']})
         out['sim_ids'] = [float(i) for i in sim.index]
@@ -294,6 +331,8 @@ def run_values(case, table):
         if case['formula'] == 'traj':
             flat = db.Database('flat', d.data[['ID', 'P', 'X']].copy())
             out['per_row'] = [float(v) for v in integrand_expr(case, False).get_value_c(database=flat, betas={'b': case['b']}, prepare_ids=True)]
+            if len(LEANRUN) < 40:
+                out['obs'] = [leanrun.observe(integrand_expr(case, False), flat, {'b': case['b']})]
     return out
 
 
@@ -414,11 +453,22 @@ def oracle_values(case, table, real, res, desc):
         gexp = math.fsum(r[2] for r in rows)
         if len(real['D']['g']) != 1 or not core.close(real['D']['g'][0], gexp, rel=1e-9, abs_=1e-9):
             res.violate('calculate_likelihood_and_derivatives: gradient of the log likelihood = sum over the individuals of the derivative of their value', desc, real['D']['g'], [gexp], where=where2)
+        # BHHH: one score per INDIVIDUAL (sum of X over its rows), squares summed over the individuals; the log likelihood is linear in b
+        bexp = math.fsum(math.fsum(r[2] for r in rows if r[0] == a) ** 2 for a in ids)
+        if len(real['D']['bhhh']) != 1 or not core.close(real['D']['bhhh'][0], bexp, rel=1e-9, abs_=1e-9):
+            res.violate('calculate_likelihood_and_derivatives: BHHH = sum over the INDIVIDUALS of the square of the score of the individual (score summed over its rows first)', desc,
+                        real['D']['bhhh'], {'by individuals': bexp, 'by rows (wrong)': math.fsum(r[2] ** 2 for r in rows)}, where=where2)
+        if len(real['D']['h']) != 1 or abs(real['D']['h'][0]) > 1e-9:
+            res.violate('calculate_likelihood_and_derivatives: second derivative of sum_n log prod_t P exp(b X) is 0', desc, real['D']['h'], [0.0], where=where2)
         l0 = math.fsum(math.log(r[1]) for r in rows)
     else:
         l0 = math.fsum(expected_mc(case, rows, order, 0.0))
     if not core.close(real['L0'], l0, rel=1e-11, abs_=1e-11):
         res.violate('calculate_init_likelihood = log likelihood at the initial value of the parameters', desc, real['L0'], l0, where='BIOGEME.calculate_init_likelihood on panel data')
+    if not core.close(real['CD']['f'], real['L'], rel=1e-13, abs_=1e-13) or not all(core.close(a, b, rel=1e-12, abs_=1e-13) for a, b in zip(real['CD']['g'] + real['CD']['h'], real['D']['g'] + real['D']['h'])):
+        res.violate('check_derivatives returns the (unscaled) log likelihood, gradient and hessian of the panel likelihood', desc, real['CD'], {'f': real['L'], 'g': real['D']['g'], 'h': real['D']['h']}, where=WHERE_DERIV)
+    if len(real['FDH']) != len(real['D']['h']) or not all(core.close(a, b, rel=1e-3, abs_=1e-3 * (1 + abs(real['L']))) for a, b in zip(real['FDH'], real['D']['h'])):
+        res.violate('likelihood_finite_difference_hessian approximates the hessian of the (unscaled) panel log likelihood', desc, real['FDH'], real['D']['h'], where=WHERE_DERIV)
     if not core.close(real['L_again'], real['L'], rel=1e-13, abs_=1e-13):
         res.violate('calculate_likelihood returns the same value after the other entry points were used', desc, real['L_again'], real['L'], where=where)
     return exp_vals
@@ -469,6 +519,11 @@ def check_panel(ctx, res, table, tag=''):
             'accepted' if real['ok'] else 'refused', 'accepted' if contiguous else 'refused', where='Database.panel')
     if real['groups'] != n_groups(ids):
         res.violate('count_number_of_groups = number of runs of equal ids', desc, real['groups'], n_groups(ids), where='count_number_of_groups')
+    if real['groups_sorted'] != len(sizes):
+        res.violate('count_number_of_groups on the sorted table = number of individuals', desc, real['groups_sorted'], len(sizes), where='count_number_of_groups')
+    if not real['frame_untouched']:
+        res.violate('count_number_of_groups leaves the table it is given unchanged', desc, 'changed', 'unchanged', where='count_number_of_groups')
+    res.tally('id-pattern:' + ('zero-first' if ids[0] == 0 else 'zero-smallest-not-first' if 0 in ids and min(ids) == 0 else 'zero-inside' if 0 in ids else 'negative-first' if ids[0] < 0 else 'other'))
     if real['ok']:
         oracle_map(table, real, res, desc)
 
@@ -478,6 +533,9 @@ def check_panel(ctx, res, table, tag=''):
             res.diverge('acceptance by Database.panel vs Panel.panelOk', desc, a.get('ok'), real['ok'])
         if a.get('groups') != real['groups']:
             res.diverge('count_number_of_groups vs Panel.countGroups', desc, a.get('groups'), real['groups'])
+        if a.get('groups_code') != real['groups'] or a.get('ok_code') != real['ok'] or a.get('individuals_code') != real['groups_sorted']:
+            res.diverge('count_number_of_groups (table, sorted table) / acceptance vs Panel.countGroupsCode / panelOkCode', desc,
+                        [a.get('groups_code'), a.get('individuals_code'), a.get('ok_code')], [real['groups'], real['groups_sorted'], real['ok']])
         if real['ok']:
             inv = {v: k for k, v in rk.items()}
             mm = [[float(inv[e[0]]), e[1], e[2]] for e in a.get('map', [])]
@@ -502,6 +560,8 @@ def check_values(ctx, res, case, table, tag=''):
         return None
     res.count({'values': desc}, nontrivial=True)
     res.tally(f'formula={case["formula"]}')
+    if 'obs' in real:
+        LEANRUN.append({'kind': 'traj', 'obs': real.pop('obs'), 'rows': real['sorted_rows'], 'per': real['sim'], 'w': 0.0, 'desc': desc})
     exp_vals = oracle_values(case, table, real, res, desc)
     rows = real['sorted_rows']
     ids_sorted = [r[0] for r in rows]
@@ -523,6 +583,38 @@ def check_values(ctx, res, case, table, tag=''):
             res.diverge(f'simulate per individual vs Panel.{"tableValues" if case["formula"] == "traj" else "panelValuesMC"}', desc, mv, real['sim'])
 
     ctx.batch.add_many([req], cb)
+    if case['formula'] == 'traj':
+        req2 = {'op': 'scores', 'ids': [rk[v] for v in ids_sorted], 'x': [f2b(r[2]) for r in rows], 'f': f2b(real['D']['f']),
+                'g': [f2b(v) for v in real['D']['g']], 'h': [f2b(v) for v in real['D']['h']], 'b': [f2b(v) for v in real['D']['bhhh']]}
+
+        def cb2(ans):
+            a = ans[0]
+            got = [real['D']['g'][0], real['D']['bhhh'][0]] if len(real['D']['g']) == 1 and len(real['D']['bhhh']) == 1 else None
+            mod = [b2f(a['grad']), b2f(a['bhhh'])] if 'grad' in a else None
+            if got is None or mod is None or not all(core.close(x, y, rel=1e-9, abs_=1e-9) for x, y in zip(mod, got)):
+                res.diverge('gradient / BHHH of the log likelihood vs Panel.gradPanel / bhhhPanel (scores by individuals)', desc, mod, got, where=WHERE_DERIV)
+            sm = [b2f(a.get('sf', 0))] + [b2f(v) for k in ('sg', 'sh', 'sb') for v in a.get(k, [])]
+            sr = [real['Ds']['f']] + real['Ds']['g'] + real['Ds']['h'] + real['Ds']['bhhh']
+            if len(sm) != len(sr) or not all(core.close(x, y, rel=1e-14, abs_=1e-300) for x, y in zip(sm, sr)):
+                res.diverge('calculate_likelihood_and_derivatives(scaled=True) vs Panel.scaledOutput', desc, sm, sr, where=WHERE_DERIV)
+
+        ctx.batch.add_many([req2], cb2)
+    else:
+        # the table as it was GIVEN (not sorted): sorting, map and assignment of the draw rows all by the model
+        rows0 = [[float(r[0]), float(r[1]), float(r[2])] for r in table['rows']]
+        rk0 = rank_map([r[0] for r in rows0])
+        req3 = dict(req, op='mc_table', ids=[rk0[r[0]] for r in rows0], p=[f2b(r[1]) for r in rows0], x=[f2b(r[2]) for r in rows0])
+
+        def cb3(ans):
+            a = ans[0]
+            mv = [b2f(v) for v in a.get('values', [])]
+            inv0 = {v: k for k, v in rk0.items()}
+            mi = [inv0.get(i) for i in a.get('ids', [])]
+            if mi != real['sim_ids'] or len(mv) != len(real['sim']) or not all(core.close(x, y, rel=1e-12, abs_=1e-13) for x, y in zip(mv, real['sim'])):
+                res.diverge('simulate per individual vs Panel.tableValuesMC on the table as given (sort, map, draw row of each individual)', desc,
+                            {'ids': mi, 'values': mv}, {'ids': real['sim_ids'], 'values': real['sim']})
+
+        ctx.batch.add_many([req3], cb3)
     return real
 
 
@@ -549,6 +641,181 @@ def check_case(ctx, res, case, rng):
         res.violate('log likelihood does not depend on the order of individuals / rows', desc, v2['L'], v['L'], where='order of the rows in a panel table')
 
 
+# ----------------------------------------------------------------------------- several trajectory operators (latent classes)
+
+WHERE_LC = 'formula with several PanelLikelihoodTrajectory combined non-additively (latent classes) on panel data'
+LEANRUN = []  # pending: per-row values of the integrands computed by the PROVED engine model, then the panel model on them
+
+
+def gen_latent_case(rng):
+    return {'table': gen_table(rng, contiguous=True), 'w': rng.choice([0.25, 0.5, 0.75, 0.125]), 'b': rng.randint(-8, 8) / 16.0,
+            'mc': rng.random() < 0.4, 'R': rng.choice([1, 2, 3]), 'threads': rng.choice([1, 2, 3])}
+
+
+def latent_parts(case):
+    from biogeme.expressions import Beta, Variable, exp, bioDraws
+
+    b = Beta('b', 0.0, None, None, 0)
+    w = Beta('w', case['w'], None, None, 1)
+    P, X = Variable('P'), Variable('X')
+    if case['mc']:
+        xi = bioDraws('xi0', 'G0')
+        return w, P * exp(b * X * xi), P * P * exp(-(b * X * xi))
+    return w, P * exp(b * X), P * P * exp(-(b * X))
+
+
+def latent_expr(case):
+    from biogeme.expressions import log, PanelLikelihoodTrajectory, MonteCarlo
+
+    w, f1, f2 = latent_parts(case)
+    mix = w * PanelLikelihoodTrajectory(f1) + (1 - w) * PanelLikelihoodTrajectory(f2)
+    return log(MonteCarlo(mix)) if case['mc'] else log(mix)
+
+
+def run_latent(case, table):
+    import biogeme.biogeme as bio
+    import biogeme.database as db
+
+    calls = []
+    with core.scratch(TOML):
+        d = db.Database('t', make_df(table))
+        d.panel('ID')
+        if case['mc']:
+            d.set_random_number_generators(make_generators(calls))
+        ll = latent_expr(case)
+        B = bio.BIOGEME(d, ll, number_of_draws=case['R'], number_of_threads=case['threads'])
+        x = [case['b']]
+        out = {'L': float(B.calculate_likelihood(x, scaled=False)), 'Ls': float(B.calculate_likelihood(x, scaled=True))}
+        for sc in (False, True):
+            r = B.calculate_likelihood_and_derivatives(x, scaled=sc, hessian=False, bhhh=True)
+            out['Ds' if sc else 'D'] = [float(r.function)] + [float(v) for v in np.asarray(r.gradient).ravel()] + [float(v) for v in np.asarray(r.bhhh).ravel()]
+        out['ids'] = [float(i) for i in d.individualMap.index]
+        e2 = latent_expr(case)
+        out['per'] = [float(v) for v in e2.get_value_c(database=d, betas={'b': case['b']}, number_of_draws=case['R'], prepare_ids=True)]
+        out['agg'] = float(latent_expr(case).get_value_c(database=d, betas={'b': case['b']}, number_of_draws=case['R'], aggregation=True, prepare_ids=True))
+        out['sorted_rows'] = [[float(a), float(p), float(xx)] for a, p, xx in zip(d.data['ID'], d.data['P'], d.data['X'])]
+        out['sample_size'] = int(d.get_sample_size())
+        if not case['mc']:
+            flat = db.Database('flat', d.data[['ID', 'P', 'X']].copy())
+            _, f1, f2 = latent_parts(case)
+            out['obs'] = [leanrun.observe(f, flat, {'b': case['b']}) for f in (f1, f2)]
+    return out
+
+
+def expected_latent(case, rows, order):
+    """per individual: value log(w prod f1 + (1-w) prod f2) (mean over the draws of the individual inside the log) and its derivative in b"""
+    w, b, R = case['w'], case['b'], case['R']
+    vals, grads = [], []
+    for ind, a in enumerate(order):
+        mine = [r for r in rows if r[0] == a]
+        S = math.fsum(r[2] for r in mine)
+        p1, p2 = math.prod(r[1] for r in mine), math.prod(r[1] * r[1] for r in mine)
+        T, dT = [], []
+        for r_ in (range(R) if case['mc'] else [None]):
+            xi = draw_value(ind, r_, 0) if case['mc'] else 1.0
+            A, C = p1 * math.exp(b * xi * S), p2 * math.exp(-b * xi * S)
+            T.append(w * A + (1 - w) * C)
+            dT.append(xi * S * (w * A - (1 - w) * C))
+        vals.append(math.log(math.fsum(T) / len(T)))
+        grads.append(math.fsum(dT) / math.fsum(T))
+    return vals, grads
+
+
+def check_latent_one(ctx, res, case, table):
+    desc = dict(case, table=table, latent=True)
+    iso_f.note(desc, WHERE_LC)
+    try:
+        real = run_latent(case, table)
+    except Exception as e:  # noqa: BLE001
+        res.violate(f'a latent-class formula on a valid panel table raises {type(e).__name__}: {str(e)[:150]}', desc, core.exc_kind(e), 'values', where=WHERE_LC)
+        return None
+    res.count({'latent': desc}, nontrivial=True)
+    res.tally('latent-class' + (':monte-carlo' if case['mc'] else ''))
+    rows = real['sorted_rows']
+    ids = sorted({r[0] for r in rows})
+    if real['ids'] != ids or real['sample_size'] != len(ids):
+        res.violate('the map lists the individuals (ascending id); sample size = their number', desc, {'ids': real['ids'], 'n': real['sample_size']}, ids, where=WHERE_LC)
+        return None
+    vals, grads = expected_latent(case, rows, ids)
+    if len(real['per']) != len(vals) or not all(core.close(a, b, rel=1e-11, abs_=1e-12) for a, b in zip(real['per'], vals)):
+        res.violate('get_value_c: per individual log(w * product over its rows of f1 + (1-w) * product over its rows of f2)', desc, real['per'], {'ids': ids, 'values': vals}, where=WHERE_LC)
+        return real
+    tot = math.fsum(vals)
+    for key, got in (('calculate_likelihood', real['L']), ('calculate_likelihood_and_derivatives', real['D'][0]), ('get_value_c(aggregation)', real['agg'])):
+        if not core.close(got, tot, rel=1e-11, abs_=1e-11):
+            res.violate(f'{key}: log likelihood = sum over the individuals of log(w * prod f1 + (1-w) * prod f2)', desc, got, tot, where=WHERE_LC)
+            return real
+    gexp, bexp = math.fsum(grads), math.fsum(g * g for g in grads)
+    if len(real['D']) != 3 or not core.close(real['D'][1], gexp, rel=1e-8, abs_=1e-9) or not core.close(real['D'][2], bexp, rel=1e-8, abs_=1e-9):
+        res.violate('calculate_likelihood_and_derivatives: gradient = sum over the individuals of their scores, BHHH = sum over the individuals of their squares', desc, real['D'][1:], [gexp, bexp], where=WHERE_LC)
+    if not core.close(real['Ls'], real['L'] / len(ids), rel=1e-15) or not all(core.close(a, b / len(ids), rel=1e-14, abs_=1e-300) for a, b in zip(real['Ds'], real['D'])):
+        res.violate('scaled quantities = unscaled / number of individuals', desc, {'Ls': real['Ls'], 'Ds': real['Ds']}, {'L': real['L'], 'D': real['D'], 'individuals': len(ids), 'rows': len(rows)}, where=WHERE_LC)
+    if not case['mc']:
+        LEANRUN.append({'obs': real.pop('obs'), 'rows': rows, 'per': real['per'], 'w': case['w'], 'desc': desc})
+    return real
+
+
+def check_latent(ctx, res, case, rng):
+    v = check_latent_one(ctx, res, case, case['table'])
+    if v is None:
+        return
+    t2 = reorder(rng, case['table'])
+    v2 = check_latent_one(ctx, res, dict(case, threads=rng.choice([1, 2])), t2)
+    if v2 is None:
+        return
+    d1, d2 = dict(zip(v['ids'], v['per'])), dict(zip(v2['ids'], v2['per']))
+    if sorted(d1) != sorted(d2) or not all(core.close(d1[a], d2[a], rel=1e-11, abs_=1e-12) for a in d1) or not core.close(v['L'], v2['L'], rel=1e-11, abs_=1e-11):
+        res.violate('latent-class values do not depend on the order of individuals / of the rows of an individual', dict(case, reordered=t2, latent=True), {'per': d2, 'L': v2['L']}, {'per': d1, 'L': v['L']},
+                    where='order of the rows in a panel table')
+
+
+def flush_leanrun(ctx, res):
+    """the integrands the code built, evaluated on every row by the PROVED engine model (C01.engine_correct) on their real
+    signature text; the panel model (Panel.tableValuesMulti / tableValues) then runs on those numbers: the C++ engine is
+    outside this comparison except for the final value it is compared with"""
+    if not LEANRUN:
+        return
+    flat = [o for it in LEANRUN for o in it['obs']]
+    try:
+        leans = leanrun.lean_values(flat)
+    except core.LeanError:
+        raise
+    pos = 0
+    reqs, items = [], []
+    for it in LEANRUN:
+        cols = []
+        for o in it['obs']:
+            lv = leans[pos]
+            pos += 1
+            leanrun.compare(res, o, lv, 'integrand of a trajectory operator', it['desc'], rel=1e-12, abs_=1e-14, where=WHERE_LC)
+            if not isinstance(lv, list) or any(isinstance(v, tuple) for v in lv) or len(lv) != len(it['rows']):
+                cols = None
+                break
+            cols.append(lv)
+        if cols is None:
+            continue
+        ids = [r[0] for r in it['rows']]
+        rk = rank_map(ids)
+        if it.get('kind') == 'traj':
+            reqs.append({'op': 'values', 'ids': [rk[v] for v in ids], 'p': [f2b(v) for v in cols[0]], 'outer': 'log'})
+        else:
+            reqs.append({'op': 'multi', 'ids': [rk[v] for v in ids], 'cols': [[f2b(v) for v in c] for c in cols], 'w': f2b(it['w']), 'comb': 'latent'})
+        items.append(it)
+    del LEANRUN[:]
+    if not reqs:
+        return
+
+    def cb(ans):
+        for a, it in zip(ans, items):
+            mv = [b2f(v) for v in a.get('values', [])]
+            if len(mv) != len(it['per']) or not all(core.close(x, y, rel=1e-11, abs_=1e-12) for x, y in zip(mv, it['per'])):
+                res.diverge('per-individual values vs the panel model (Panel.tableValuesMulti / tableValues) run on the per-row values of the PROVED engine model', it['desc'], mv, it['per'], where=WHERE_LC)
+            else:
+                res.tally('leanrun:panel model on engine-model rows')
+
+    ctx.batch.add_many(reqs, cb)
+
+
 # ----------------------------------------------------------------------------- sequences on one object
 
 SEQ_TOML = core.TOML_MINIMAL.replace('save_iterations = "False"', 'save_iterations = "False"\nbootstrap_samples = {B}') + '[Output]\ngenerate_html = "False"\ngenerate_pickle = "False"\n'
@@ -559,7 +826,8 @@ def gen_seq_case(rng):
         t = gen_table(rng, contiguous=True)
         if len({r[0] for r in t['rows']}) >= 3:
             break
-    return {'table': t, 'b0': rng.randint(-8, 8) / 8.0, 'np_seed': rng.randint(1, 10**6), 'samples': rng.choice([2, 3, 4]), 'threads': rng.choice([1, 2, 3])}
+    return {'table': t, 'b0': rng.randint(-8, 8) / 8.0, 'np_seed': rng.randint(1, 10**6), 'samples': rng.choice([2, 3, 4]), 'threads': rng.choice([1, 2, 3]),
+            'resize': rng.choice([None, None, 1, 7])}
 
 
 def run_sequence(case):
@@ -596,12 +864,27 @@ def run_sequence(case):
             out.append(st)
 
         def results(step, r):
-            out.append({'step': step, 'sampleSize': int(r.data.sampleSize), 'numberOfObservations': int(r.data.numberOfObservations)})
+            out.append({'step': step, 'sampleSize': int(r.data.sampleSize), 'numberOfObservations': int(r.data.numberOfObservations),
+                        'logLike': float(r.data.logLike), 'beta': float(r.get_beta_values()['b'])})
 
         sim('simulate-first')
         like('likelihood-after-simulate')
         sim('simulate-after-likelihood')
+        m0 = d.individualMap
+        out.append({'step': 'map', 'map': [[float(i), int(m0.loc[i].iloc[0]), int(m0.loc[i].iloc[1])] for i in m0.index], 'x': [float(v) for v in d.data['X']]})
+        n_map = len(m0)
+        np.random.seed(case['np_seed'] + 1)
         results('results-of-estimate-with-bootstrap', B.estimate(run_bootstrap=True))
+        br = np.asarray(B.bootstrap_results, dtype=float)
+        np.random.seed(case['np_seed'] + 1)  # the same stream again: the picks of the bootstrap loop
+        picks = [[int(i) for i in np.random.randint(0, n_map, size=n_map)] for _ in range(case['samples'])]
+        out.append({'step': 'bootstrap-estimates', 'shape': list(br.shape), 'values': [float(v) for v in br.ravel()], 'picks': picks})
+        size = case.get('resize')
+        np.random.seed(case['np_seed'] + 2)
+        smp = d.sample_individual_map_with_replacement(size)
+        np.random.seed(case['np_seed'] + 2)
+        pk = [int(i) for i in np.random.randint(0, n_map, size=n_map if size is None else size)]
+        out.append({'step': 'resample-map', 'size': size, 'picks': pk, 'sample': [[float(smp.index[k]), int(smp.iloc[k, 0]), int(smp.iloc[k, 1])] for k in range(len(smp))]})
         like('likelihood-right-after-bootstrap')
         sim('simulate-after-bootstrap')
         like('likelihood-after-bootstrap-and-simulate')
@@ -609,6 +892,8 @@ def run_sequence(case):
         results('results-of-estimate', B.estimate())
         sim('simulate-after-estimate')
         like('likelihood-after-estimate')
+        results('results-of-quick-estimate', B.quick_estimate())
+        like('likelihood-after-quick-estimate')
     return out
 
 
@@ -629,8 +914,40 @@ def check_sequence(ctx, res, case):
     exp_traj = {a: math.prod(r[1] for r in rows if float(r[0]) == a) for a in ids}
     exp_ll = {a: math.fsum(math.log(r[1]) - (b0 - r[2]) ** 2 for r in rows if float(r[0]) == a) for a in ids}
     exp_L = math.fsum(exp_ll.values())
+    # the map and the bootstrap samples, from the statement: whole individuals (ascending id), each with all its rows
+    srt = sorted(rows, key=lambda r: float(r[0]))
+    omap, lo = [], 0
+    for a in ids:
+        k = sum(1 for r in rows if float(r[0]) == a)
+        omap.append([a, lo, lo + k - 1])
+        lo += k
+    real_map, boot = None, None
     for st in steps:
         desc = dict(desc0, step=st['step'])
+        if st['step'] == 'map':
+            real_map = st
+            if st['map'] != omap:
+                res.violate('the map lists every individual (ascending id) with the first and last row of its block', desc, st['map'], omap, where=WHERE_SEQ)
+            continue
+        if st['step'] == 'bootstrap-estimates':
+            boot = st
+            res.tally('bootstrap-on-panel')
+            # log likelihood sum_rows (log P - (b - X)^2) over the rows of the PICKED INDIVIDUALS (with multiplicity): maximum at the mean of X over those rows
+            want = []
+            for pk in st['picks']:
+                xs = [r[2] for i in pk for r in srt[omap[i][1]:omap[i][2] + 1]]
+                want.append(math.fsum(xs) / len(xs))
+            if st['shape'] != [case['samples'], 1] or not all(core.close(a, b, rel=1e-5, abs_=1e-5) for a, b in zip(st['values'], want)):
+                res.violate(
+                    'estimate(run_bootstrap=True) on panel data: every bootstrap sample is made of whole individuals drawn with replacement (all the rows of each picked individual, '
+                    'as many individuals as the table has); its estimate maximises the likelihood of exactly those rows', desc, st['values'],
+                    {'picks': st['picks'], 'estimates': want}, where=WHERE_BOOT_SAMPLE)
+            continue
+        if st['step'] == 'resample-map':
+            want = [omap[i] for i in st['picks']]
+            if st['sample'] != want:
+                res.violate('sample_individual_map_with_replacement returns the lines of the map of the picked individuals (requested size, default: the number of individuals)', desc, st['sample'], want, where=WHERE_BOOT_SAMPLE)
+            continue
         if 'L' in st:
             where = WHERE_BOOT_L if st['step'] == 'likelihood-right-after-bootstrap' else WHERE_SEQ
             if not core.close(st['L'], exp_L, rel=1e-10, abs_=1e-10):
@@ -650,6 +967,12 @@ def check_sequence(ctx, res, case):
                     f'estimation results ({st["step"]}): sample size = number of individuals, number of observations = number of rows', desc,
                     {'sampleSize': st['sampleSize'], 'numberOfObservations': st['numberOfObservations']}, {'sampleSize': len(ids), 'numberOfObservations': len(rows)},
                     where='estimation results on panel data: sampleSize / numberOfObservations')
+            # the log likelihood sum_rows (log P - (b - X)^2) is maximal at the mean of X over ALL the rows of all individuals
+            bstar = math.fsum(r[2] for r in rows) / len(rows)
+            lstar = math.fsum(math.log(r[1]) - (bstar - r[2]) ** 2 for r in rows)
+            if not core.close(st['beta'], bstar, rel=1e-5, abs_=1e-5) or not core.close(st['logLike'], lstar, rel=1e-8, abs_=1e-8):
+                res.violate(f'estimation results ({st["step"]}): estimate and final log likelihood are those of the full panel table (every individual once, all its rows)', desc,
+                            {'beta': st['beta'], 'logLike': st['logLike']}, {'beta': bstar, 'logLike': lstar}, where=WHERE_SEQ)
             continue
         if sorted(st['ids']) != ids:
             res.violate(f'simulate ({st["step"]}) reports one line per individual', desc, st['ids'], ids, where=WHERE_SEQ)
@@ -660,6 +983,33 @@ def check_sequence(ctx, res, case):
                     f'simulate ({st["step"]}): the value reported for individual {a} = product over exactly the rows of that individual', desc,
                     {'traj': tv, 'log_like': lv}, {'traj': exp_traj[a], 'log_like': exp_ll[a]}, where=WHERE_SEQ)
                 break
+    if real_map is None or boot is None:
+        return
+    rs = [st for st in steps if st['step'] == 'resample-map']
+    rk = rank_map(ids)
+    inv = {v: k for k, v in rk.items()}
+    samples = boot['picks'] + [st['picks'] for st in rs]
+    req = {'op': 'bootstrap', 'ids': [rk[float(r[0])] for r in srt], 'samples': samples,
+           'ops': ['simulate', 'likelihood', 'simulate', 'estimate-bootstrap', 'likelihood', 'simulate', 'likelihood', 'simulate', 'estimate', 'simulate', 'likelihood', 'estimate', 'likelihood']}
+
+    def cb(ans):
+        a = ans[0]
+        conv = lambda m: [[float(inv[e[0]]), e[1], e[2]] for e in m]
+        if conv(a.get('map', [])) != real_map['map']:
+            res.diverge('individualMap vs Panel.panelMap', desc0, conv(a.get('map', [])), real_map['map'], where=WHERE_SEQ)
+            return
+        rsm = [conv(m) for m in a.get('resampled', [])]
+        xs = real_map['x']
+        est = [math.fsum(x for e in m for x in xs[e[1]:e[2] + 1]) / max(1, sum(e[2] - e[1] + 1 for e in m)) for m in rsm[:len(boot['picks'])]]
+        if len(est) != len(boot['values']) or not all(core.close(x, y, rel=1e-5, abs_=1e-5) for x, y in zip(est, boot['values'])):
+            res.diverge('bootstrap estimates vs the maximiser over the rows of Panel.resample (whole individuals, with multiplicity)', dict(desc0, step='bootstrap-estimates'), est, boot['values'], where=WHERE_BOOT_SAMPLE)
+        for st, m in zip(rs, rsm[len(boot['picks']):]):
+            if m != st['sample']:
+                res.diverge('sample_individual_map_with_replacement vs Panel.resample', dict(desc0, step='resample-map'), m, st['sample'], where=WHERE_BOOT_SAMPLE)
+        if any(conv(u) != real_map['map'] for u in a.get('used', [])) or len(a.get('used', [])) != 13:
+            res.diverge('Panel.Sess.run: every reported evaluation of the sequence runs on the full map', desc0, a.get('used'), real_map['map'], where=WHERE_SEQ)
+
+    ctx.batch.add_many([req], cb)
 
 
 # ----------------------------------------------------------------------------- the table changes between evaluations
@@ -869,6 +1219,8 @@ def iter_edit_case(case):
                     B = bio.BIOGEME(d, log(edit_formula(case)), number_of_draws=R, number_of_threads=1 + k % 3)
                     rec['L'] = float(B.calculate_likelihood([case['b']], scaled=False))
                     rec['Ls'] = float(B.calculate_likelihood([case['b']], scaled=True))
+                    rec['N'] = int(d.get_sample_size())
+                    rec['Dsf'] = float(B.calculate_likelihood_and_derivatives([case['b']], scaled=True).function)
                     sim = B.simulate(betas)
                     rec['sim_ids'] = [float(i) for i in sim.index]
                     rec['values'] = [float(v) for v in sim['log_like'].values]
@@ -978,6 +1330,8 @@ def check_edit_step(res, case, cur, k, rec, desc, where):
             res.violate(f'evaluation {k}: log likelihood = sum over the individuals of the current table', desc, rec['L'], math.fsum(want), where=where)
         elif not core.close(rec['Ls'], rec['L'] / len(ids), rel=1e-15):
             res.violate(f'evaluation {k}: scaled log likelihood = log likelihood / number of individuals of the current table', desc, rec['Ls'], rec['L'] / len(ids), where=where)
+        elif 'Dsf' in rec and not core.close(rec['Dsf'], rec['L'] / len(ids), rel=1e-14):
+            res.violate(f'evaluation {k}: calculate_likelihood_and_derivatives(scaled=True) = log likelihood / number of individuals of the current table', desc, rec['Dsf'], rec['L'] / len(ids), where=where)
     if 'gradients' in rec and case['formula'] == 'traj':
         # d/db prod_t P exp(b X) = value * sum of X over the rows of the individual
         gw = [v * math.fsum(r[2] for r in cur if float(r[0]) == a) for a, v in zip(ids, vals)]
@@ -1044,6 +1398,16 @@ def check_edit_case(ctx, res, case):
         if 'error' in rec:
             if rec['error_kind'].startswith('Other') and not case.get('isolated'):
                 _POISON['hit'] = True
+            if 'L' in rec:
+                # the likelihood was returned before a later call raised: judge it first (the reason, not the crash)
+                ids_, vals_ = expected_edit_values(case, cur)
+                wantL = math.fsum(math.log(v) for v in vals_)
+                if not core.close(rec['L'], wantL, rel=1e-11, abs_=1e-11) or rec.get('N') != len(ids_):
+                    res.violate(
+                        f'evaluation {k} (new BIOGEME object on the changed table): log likelihood = sum over the individuals of the CURRENT table of the log of the '
+                        'product over exactly their rows; sample size = their number', desc, {'L': rec['L'], 'sample_size': rec.get('N')},
+                        {'L': wantL, 'sample_size': len(ids_)}, where=where)
+                    break
             res.violate(
                 f'evaluation {k} ({rec["entry"]}) after the table was changed raises {rec["error"]}', desc, rec['error_kind'],
                 'one value per individual of the current table', where=where)
@@ -1101,6 +1465,196 @@ def check_edit_case(ctx, res, case):
                     return
 
     ctx.batch.add_many(reqs, cb)
+
+
+# ----------------------------------------------------------------------------- one object, table changed after it was created
+
+WHERE_SAME_OBJ = 'evaluation on an existing BIOGEME object after the table of its panel database was changed (the engine keeps the table of __init__)'
+MATCHERS['same_object_edit'] = lambda case: isinstance(case, dict) and case.get('same_object') is True
+SAME_ENTRIES = ('likelihood', 'deriv', 'simulate')
+
+
+def gen_same_obj_case(rng):
+    t = gen_table(rng, contiguous=True)
+    ids0 = [r[0] for r in t['rows']]
+    allint = all(float(v).is_integer() for v in ids0)
+    cur = [[r[0], r[1], r[2], float(k)] for k, r in enumerate(t['rows'])]
+    nxt = len(cur)
+    case = {'first': [list(r) for r in cur], 'index': list(t['index']), 'allint': allint, 'formula': 'traj', 'b': rng.randint(-8, 8) / 16.0, 'q': 0.0, 'K': 1, 'R': 1,
+            'steps': [], 'same_object': True}
+    for _ in range(rng.choice([1, 2, 3])):
+        op = rng.choice(['none', 'order', 'order', 'append_last', 'append_new', 'drop_individual', 'relabel', 'drop'])
+        ids_now = sorted({r[0] for r in cur})
+        edits = []
+        if op == 'order':            # the same rows in another order: the sorted table is the one the engine holds
+            by = {}
+            for r in cur:
+                by.setdefault(r[0], []).append(r[3])
+            order = list(by)
+            rng.shuffle(order)
+            edits = [{'op': 'order', 'keys': [k for a in order for k in by[a]]}]
+        elif op in ('append_last', 'append_new'):
+            idv = cur[-1][0] if op == 'append_last' else max(ids_now) + rng.choice([1, 5])
+            rows = [[idv, rng.choice([0.125, 0.25, 0.5, 0.75]), rng.randint(-8, 8) / 4.0, float(nxt + i)] for i in range(rng.choice([1, 2]))]
+            nxt += len(rows)
+            edits = [{'op': 'append', 'rows': rows}]
+        elif op == 'drop_individual' and len(ids_now) >= 2:
+            a = rng.choice(ids_now)
+            edits = [{'op': 'drop', 'keys': sorted(r[3] for r in cur if r[0] == a)}]
+        elif op == 'drop' and len(cur) >= 2:
+            edits = [{'op': 'drop', 'keys': [rng.choice(cur)[3]]}]
+        elif op == 'relabel' and len(ids_now) >= 2:
+            edits = [{'op': 'relabel', 'key': rng.choice(cur)[3], 'id': rng.choice(ids_now)}]
+        cur = apply_edits(cur, edits)
+        case['steps'].append({'edits': edits, 'entry': rng.choice(SAME_ENTRIES)})
+    return case
+
+
+def same_child(payload):
+    """(fresh interpreter) one BIOGEME object; after each group of edits of database.data one public call on that object"""
+    import json
+    import os
+    import warnings
+    import logging
+    import pandas as pd
+    import biogeme.biogeme as bio
+    import biogeme.database as db
+    from biogeme.expressions import log
+
+    warnings.simplefilter('ignore')
+    logging.disable(logging.WARNING)
+    case = payload['case']
+    with open(payload['progress'], 'a') as f, core.scratch(TOML):
+        first, allint = case['first'], case['allint']
+        df = pd.DataFrame({
+            'ID': [int(r[0]) for r in first] if allint else [float(r[0]) for r in first],
+            'P': [float(r[1]) for r in first], 'X': [float(r[2]) for r in first], 'K': [float(r[3]) for r in first]}, index=list(case['index']))
+        d = db.Database('t', df)
+        d.panel('ID')
+        B = bio.BIOGEME(d, {'log_like': log(edit_formula(case))})
+        x = [case['b']]
+        for step in [{'edits': [], 'entry': 'likelihood'}] + case['steps']:
+            rec = {'entry': step['entry']}
+            try:
+                apply_edits_real(d, step['edits'], allint)
+                if step['entry'] == 'likelihood':
+                    rec['L'] = float(B.calculate_likelihood(x, scaled=False))
+                    rec['Ls'] = float(B.calculate_likelihood(x, scaled=True))
+                elif step['entry'] == 'deriv':
+                    r = B.calculate_likelihood_and_derivatives(x, scaled=True, hessian=False, bhhh=False)
+                    rec['Ls'] = float(r.function)
+                    rec['gs'] = [float(v) for v in np.asarray(r.gradient).ravel()]
+                else:
+                    sim = B.simulate({'b': case['b']})
+                    rec['sim_ids'] = [float(i) for i in sim.index]
+                    rec['values'] = [None if math.isnan(float(v)) else float(v) for v in sim['log_like'].values]
+                rec['N'] = int(d.get_sample_size())
+            except Exception as e:  # noqa: BLE001
+                rec['error'] = f'{type(e).__name__}: {str(e)[:200]}'
+                rec['error_kind'] = core.exc_kind(e)
+            f.write(json.dumps(rec) + '\n')
+            f.flush()
+            os.fsync(f.fileno())
+            if 'error' in rec and str(rec.get('error_kind', '')).startswith('Other'):
+                os._exit(0)
+    return 'done'
+
+
+def check_same_obj(ctx, res, case):
+    import json
+    import os
+    import tempfile
+
+    desc0 = dict(case)
+    iso_f.note(desc0, WHERE_SAME_OBJ)
+    fd, path = tempfile.mkstemp(prefix='vbg_c09_same_', suffix='.jsonl')
+    os.close(fd)
+    try:
+        out = core.run_isolated('props.c09', 'same_child', {'case': case, 'progress': path}, timeout=300)
+        recs = [json.loads(l) for l in open(path).read().splitlines() if l.strip()]
+    finally:
+        try:
+            os.unlink(path)
+        except OSError:
+            pass
+    steps = [{'edits': [], 'entry': 'likelihood'}] + case['steps']
+    if len(recs) < len(steps) and not (recs and str(recs[-1].get('error_kind', '')).startswith('Other')):
+        recs.append({'entry': steps[len(recs)]['entry'], 'error': 'the process dies: ' + str(out.get('__error__') if isinstance(out, dict) else out)[:100], 'error_kind': 'Other:died'})
+    res.count({'same-object': desc0}, nontrivial=True)
+    res.tally('same-object-sequence')
+    cur = [list(r) for r in case['first']]
+    first_sorted = sorted(([float(r[0]), r[1], r[2]] for r in cur), key=lambda r: r[0])
+    tables, seen = [], []
+    for k, (step, rec) in enumerate(zip(steps, recs)):
+        cur = apply_edits(cur, step['edits'])
+        tables.append([list(r) for r in cur])
+        seen.append(rec)
+        desc = dict(desc0, evaluation=k)
+        changed = sorted(([float(r[0]), r[1], r[2]] for r in cur), key=lambda r: r[0]) != first_sorted
+        res.tally(f'same-object:{rec["entry"]}:' + ('table changed' if changed else 'same rows'))
+        if rec.get('error_kind') == 'BiogemeError' and changed:
+            continue  # a refusal with the library error is an acceptable answer for a table the engine does not hold
+        if 'error' in rec:
+            res.violate(
+                f'evaluation {k} ({rec["entry"]}) on the existing object raises {rec["error"]}', desc, rec['error_kind'],
+                'the values of the current table' + (' (or a BiogemeError refusing the changed table)' if changed else ''), where=WHERE_SAME_OBJ)
+            break
+        ids, vals = expected_edit_values(case, cur)
+        want = [math.log(v) for v in vals]
+        L = math.fsum(want)
+        bad = None
+        if rec.get('N') != len(ids):
+            bad = ('sample size = number of individuals of the current table', rec.get('N'), len(ids))
+        elif 'L' in rec and not core.close(rec['L'], L, rel=1e-11, abs_=1e-11):
+            bad = ('log likelihood = sum over the individuals of the current table of the log of the product over their rows', rec['L'], L)
+        elif 'Ls' in rec and not core.close(rec['Ls'], L / len(ids), rel=1e-11, abs_=1e-11):
+            bad = ('scaled log likelihood = log likelihood of the current table / number of its individuals', rec['Ls'], L / len(ids))
+        elif 'values' in rec and (rec['sim_ids'] != ids or any(v is None for v in rec['values']) or not all(core.close(a, b, rel=1e-11, abs_=1e-12) for a, b in zip(rec['values'], want))):
+            bad = ('simulate: one line per individual of the current table, value = log of the product over its rows', {'ids': rec['sim_ids'], 'values': rec['values']}, {'ids': ids, 'values': want})
+        if bad:
+            res.violate(f'evaluation {k} ({rec["entry"]}) on the existing object: {bad[0]} (or the call is refused with the library error)', desc, bad[1], bad[2], where=WHERE_SAME_OBJ)
+            break
+    if not tables:
+        return
+    allids = sorted({float(r[0]) for t in tables for r in t})
+    rk = {a: i - len(allids) // 2 for i, a in enumerate(allids)}
+    b = case['b']
+
+    def tj(t):
+        return {'ids': [rk[float(r[0])] for r in t], 'p': [f2b(r[1] * math.exp(b * r[2])) for r in t]}
+
+    n = len(seen)
+
+    def cb(ans):
+        sm = ans[0].get('steps') or []
+        for k, (m, rec) in enumerate(zip(sm, seen)):
+            desc = dict(desc0, evaluation=k)
+            real_refused = rec.get('error_kind') == 'BiogemeError'
+            if bool(m.get('refused')) != real_refused:
+                res.diverge(f'evaluation {k} on the existing object: refused / evaluated vs Panel.Obj.history', desc, 'refused' if m.get('refused') else 'evaluated',
+                            rec.get('error', 'evaluated'), where=WHERE_SAME_OBJ)
+                return
+            if not m.get('refused') and 'values' in rec:
+                mv = [math.log(b2f(v)) for v in m.get('values', [])]
+                if len(mv) != len(rec['values']) or not all(y is not None and core.close(x, y, rel=1e-11, abs_=1e-12) for x, y in zip(mv, rec['values'])):
+                    res.diverge(f'evaluation {k} (simulate) on the existing object vs Panel.Obj.history', desc, mv, rec['values'], where=WHERE_SAME_OBJ)
+                    return
+
+    ctx.batch.add_many([{'op': 'object', 'outer': 'id', 'first': tj(tables[0]), 'tables': [tj(t) for t in tables[:n]]}], cb)
+
+
+def _same_corpus():
+    base = [[7, 0.5, 1.0, 0.0], [7, 0.25, 2.0, 1.0], [7, 0.5, -1.0, 2.0], [3, 0.75, 0.5, 3.0], [12, 0.5, 1.5, 4.0], [12, 0.125, -0.5, 5.0]]
+    common = {'first': base, 'index': [0, 1, 2, 3, 4, 5], 'allint': True, 'formula': 'traj', 'b': 0.5, 'q': 0.0, 'K': 1, 'R': 1, 'same_object': True}
+    return [
+        # the same rows in another order (nothing changed for the engine), three entry points
+        dict(common, steps=[{'edits': [{'op': 'order', 'keys': [4.0, 5.0, 3.0, 0.0, 1.0, 2.0]}], 'entry': 'likelihood'}, {'edits': [], 'entry': 'simulate'}, {'edits': [], 'entry': 'deriv'}]),
+        # F-C09-5: a new wave for the last individual and a new individual, then likelihood and simulate on the existing object
+        dict(common, steps=[{'edits': [{'op': 'append', 'rows': [[12, 0.5, 1.0, 6.0], [20, 0.5, 1.0, 7.0]]}], 'entry': 'likelihood'}, {'edits': [], 'entry': 'simulate'}, {'edits': [], 'entry': 'likelihood'}]),
+    ]
+
+
+CORPUS_SAME = _same_corpus()
 
 
 # ----------------------------------------------------------------------------- placement rule
@@ -1325,6 +1879,15 @@ CORPUS_TABLES = [
 ]
 
 
+# id 0: the smallest id, not in the first block / in the first block / between negative and positive ids; ids descending
+CORPUS_ZERO = [
+    {'rows': [[3, 0.5, 1.0], [3, 0.25, 0.5], [0, 0.75, 0.5], [0, 0.5, 2.0], [0, 0.125, -1.0], [2, 0.25, 0.0], [1, 0.5, 1.5], [1, 0.5, -1.0]], 'index': [0, 1, 2, 3, 4, 5, 6, 7]},
+    {'rows': [[0, 0.5, 1.0], [0, 0.25, 0.5], [-1, 0.75, 0.5], [1, 0.5, 2.0], [1, 0.125, -1.0]], 'index': [4, 3, 2, 1, 0]},
+    {'rows': [[5, 0.5, 1.0], [5, 0.25, 0.5], [9, 0.75, 0.5], [9, 0.5, 2.0], [9, 0.125, -1.0], [0, 0.25, 0.0], [2, 0.5, 1.5], [2, 0.5, -1.0]], 'index': [7, 6, 5, 4, 3, 2, 1, 0]},
+    {'rows': [[0, 0.5, 1.0], [3, 0.25, 0.5], [0, 0.75, 0.5]], 'index': [0, 1, 2]},   # interleaved, with 0
+]
+
+
 def _v(n):
     return {'k': 'var', 'n': n}
 
@@ -1373,7 +1936,7 @@ CORPUS_EDITS = _edit_corpus()
 def check_impl(ctx) -> Result:
     res = Result(rule=RULE, tolerance='map, acceptance, sample size, generator calls: exact; values: rel 1e-11 (oracle), rel 1e-12 (model vs code)')
     rng = ctx.rng
-    for i, t in enumerate(CORPUS_TABLES):
+    for i, t in enumerate(CORPUS_TABLES + CORPUS_ZERO):
         crng = core.rng_for('C09-corpus', i)
         for formula in ('traj', 'mc'):
             case = {'table': t, 'formula': formula, 'b': 0.25, 'q': 0.5, 'K': 2, 'R': 3, 'threads': 2}
@@ -1382,7 +1945,7 @@ def check_impl(ctx) -> Result:
     # known finding F-C09-1 (dict of formulas): concrete input first
     check_audit(ctx, res, {'k': 'bin', 'op': '+', 'l': {'k': 'traj', 'e': {'k': 'var', 'n': 'P'}}, 'r': {'k': 'var', 'n': 'X'}}, dict_path=True)
     check_audit(ctx, res, {'k': 'bin', 'op': '+', 'l': {'k': 'traj', 'e': {'k': 'var', 'n': 'P'}}, 'r': {'k': 'var', 'n': 'X'}}, dict_path=False)
-    known = (WHERE_DICT, WHERE_BOOT_L, WHERE_STALE_DRAWS, WHERE_UNSORTED)
+    known = (WHERE_DICT, WHERE_BOOT_L, WHERE_STALE_DRAWS, WHERE_UNSORTED, WHERE_SAME_OBJ)
     # one object used for several calls in a row, with an estimation (bootstrap) in between
     check_sequence(ctx, res, {'table': CORPUS_TABLES[1], 'b0': 0.25, 'np_seed': 2026, 'samples': 3, 'threads': 2})
     for _ in range(ctx.n(8, 150)):
@@ -1407,6 +1970,20 @@ def check_impl(ctx) -> Result:
         check_case(ctx, res, case, rng)
         if len([v for v in res.violations if v.get('where') not in known]) > 5:
             break
+    # one BIOGEME object kept while the table of its database is changed (isolated: the engine may raise or die)
+    for c in CORPUS_SAME:
+        check_same_obj(ctx, res, c)
+    for _ in range(ctx.n(1, 25)):
+        check_same_obj(ctx, res, gen_same_obj_case(rng))
+    # several trajectory operators combined non-additively (latent classes), with and without shared draws
+    for i, t in enumerate(CORPUS_TABLES[1:] + CORPUS_ZERO[:3]):
+        for mc in (False, True):
+            check_latent(ctx, res, {'table': t, 'w': 0.25, 'b': 0.5, 'mc': mc, 'R': 3, 'threads': 2}, core.rng_for('C09-latent', i))
+    for _ in range(ctx.n(16, 350)):
+        if _POISON['hit'] or len([v for v in res.violations if v.get('where') not in known]) > 5:
+            break
+        check_latent(ctx, res, gen_latent_case(rng), rng)
+    flush_leanrun(ctx, res)
     for _ in range(ctx.n(60, 1200)):
         check_audit(ctx, res, gen_tree(rng, rng.randint(1, 4)), dict_path=False)
     for _ in range(ctx.n(5, 60)):
@@ -1446,7 +2023,7 @@ class _Ctx2:
 def search(ctx, res, broken):
     rng = core.rng_for('C09-search', ctx.seed)
     c2 = _Ctx2(rng)
-    known = (WHERE_DICT, WHERE_BOOT_L, WHERE_STALE_DRAWS, WHERE_UNSORTED)
+    known = (WHERE_DICT, WHERE_BOOT_L, WHERE_STALE_DRAWS, WHERE_UNSORTED, WHERE_SAME_OBJ)
     for i in range(300):
         r2 = Result()
         check_case(c2, r2, gen_case(rng), rng)
@@ -1455,6 +2032,9 @@ def search(ctx, res, broken):
         check_audit(c2, r2, t, dict_path=False)
         if i < 40:
             check_sequence(c2, r2, gen_seq_case(rng))
+        if i < 100:
+            check_latent(c2, r2, gen_latent_case(rng), rng)
+            del LEANRUN[:]
         found = [v for v in r2.violations if v.get('where') not in known]
         if found:
             res.violations.extend(found[:1])
@@ -1470,6 +2050,10 @@ def replay_impl(ctx, obj):
         check_sequence(c2, r, {k: v for k, v in case.items() if k != 'step'})
         if case.get('step') and case['step'] != 'sequence':
             r.violations = [v for v in r.violations if v['case'].get('step') == case['step']]
+    elif case.get('same_object') and 'first' in case:
+        check_same_obj(c2, r, {k: v for k, v in case.items() if k != 'evaluation'})
+        if 'evaluation' in case:
+            r.violations = [v for v in r.violations if v['case'].get('evaluation') == case['evaluation']]
     elif 'steps' in case and 'first' in case:
         check_edit_case(c2, r, {k: v for k, v in case.items() if k not in ('evaluation', 'stale_draws', 'unsorted_table')})
         if 'evaluation' in case:
@@ -1478,6 +2062,12 @@ def replay_impl(ctx, obj):
         check_audit_eval(c2, r, case['tree'])
     elif 'tree' in case:
         check_audit(c2, r, case['tree'], dict_path=bool(case.get('dict_path')))
+    elif case.get('latent') and 'table' in case:
+        base = {k: v for k, v in case.items() if k not in ('reordered', 'latent')}
+        check_latent(c2, r, base, c2.rng)
+        if 'reordered' in case:
+            check_latent_one(c2, r, base, case['reordered'])
+        del LEANRUN[:]
     elif 'formula' in case and 'table' in case:
         check_case(c2, r, {k: v for k, v in case.items() if k != 'reordered'}, c2.rng)
         if 'reordered' in case:
